@@ -40,6 +40,7 @@ pub(crate) enum Directive {
 }
 
 pub(crate) fn parse_directive(jsx_attr: &JSXAttr, is_component: bool) -> Directive {
+    verif_point!("parse_directive");
     let (name, argument, splitted) = match &jsx_attr.name {
         JSXAttrName::Ident(ident) => {
             let mut splitted = ident
